@@ -1,10 +1,11 @@
 """C16 — encodings and ordinals are order-preserving bijections.
 
-Proof: coq/Num/FormatsProofs.v (parametric: two's-complement / sign-magnitude /
-exponential encodings, fixed-point and floating-point ordinals, IEEE decode vs
-Flocq's binary_float_of_bits, extended-float decode vs the declarative layout)
-and coq/Num/FormatsBounded.v (every extended-float format with nbits <= 8: all
-patterns, all candidate values; genuine bounded theorems by vm_compute).
+Proof: coq/Num/Formats{,IEEE,Fixed,FloatOrd}Proofs.v (parametric: extended-float
+decode vs the declarative layout, IEEE layout vs Flocq's binary_float_of_bits,
+two's-complement / sign-magnitude / exponential round trips, fixed-point and
+floating-point ordinals) and coq/Num/FormatsBounded{Lib,RT,Ord,Cand}Proofs.v
+(every extended-float format with nbits <= 8: all patterns; nbits <= 6: all
+candidate values; genuine bounded theorems by vm_compute).
 Statements: coq/Props/C16.v.
 
 Tie: the Gallina model coq/Num/Formats.v is executed (vm_compute) on every bit
@@ -24,10 +25,13 @@ MANIFEST = {
     'text': 'Coq proof that the model of the format classes (EFloat/IEEE, two\'s-complement, sign-magnitude, exponential, '
             'MPS/MPB float and MP/MPB fixed ordinals) decodes to the published layout (IEEE: Flocq binary_float_of_bits), '
             'round-trips encode/decode, maps ordinals by a strictly increasing bijection onto a contiguous range with '
-            'next_up/next_down = ordinal +- 1 and agrees with its min/max/representability queries: parametric (unbounded '
-            'width) for fixed-point, exponential, ordinals and decode; bounded (all formats with nbits <= 8, all patterns) '
-            'for the extended-float encode and queries.  Four genuine defects are refuted by witness and recorded.  Tied '
-            'to /repo by exhaustive differential execution of model vs fpy2 over all formats with nbits <= 6 (8 thorough).',
+            'next_up/next_down = ordinal +- 1 and agrees with its min/max/representability queries.  Unbounded (any width, '
+            'scale, precision, exponent offset): decode = layout for every extended format, IEEE = Flocq, the two\'s-complement / '
+            'sign-magnitude / exponential round trips, fixed-point and floating-point ordinals (value on a strictly increasing '
+            'scale, inverse, contiguous range), stepping.  Bounded (every valid extended format with nbits <= 8, all patterns; '
+            'nbits <= 6 for all candidate values): encode round trips, representable_in, normalize, min/max queries.  Four '
+            'genuine defects are refuted by witness, proved absent from the patched variant, and recorded.  Tied to /repo by '
+            'exhaustive differential execution of model vs fpy2 over all formats with nbits <= 6 (8 thorough).',
     'technique': 'machine-checked proof in Coq (parametric + bounded vm_compute) + exhaustive model/implementation correspondence',
 }
 
@@ -473,14 +477,16 @@ def probe_fixes():
     from fpy2.number import Float
     from fpy2.number.context.efloat import EFloatFormat, EFloatNanKind as K
     from fpy2.number.context.fixed import FixedFormat
-    f0 = EFloatFormat(0, 1, False, K.NEG_ZERO, 0)
-    fx_repr = bool(f0.representable_in(Float(isnan=True, s=True)))
-    f1 = EFloatFormat(2, 3, True, K.MAX_VAL, 0)
-    fx_inf = f1.encode(Float(isinf=True)) == 2
-    f2 = EFloatFormat(2, 4, False, K.NEG_ZERO, 0)
-    fx_nan = f2.encode(Float(isnan=True, s=False)) == 8
-    f3 = FixedFormat(True, 0, 8)
-    fx_norm = f3.normalize(Float(c=1, exp=2)).as_rational() == 4
+
+    def safe(fn):
+        try:
+            return bool(fn())
+        except Exception:  # noqa: a broken implementation is reported by the correspondence, not here
+            return False
+    fx_repr = safe(lambda: EFloatFormat(0, 1, False, K.NEG_ZERO, 0).representable_in(Float(isnan=True, s=True)))
+    fx_inf = safe(lambda: EFloatFormat(2, 3, True, K.MAX_VAL, 0).encode(Float(isinf=True)) == 2)
+    fx_nan = safe(lambda: EFloatFormat(2, 4, False, K.NEG_ZERO, 0).encode(Float(isnan=True, s=False)) == 8)
+    fx_norm = safe(lambda: FixedFormat(True, 0, 8).normalize(Float(c=1, exp=2)).as_rational() == 4)
     return fx_repr, fx_inf, fx_nan, fx_norm
 
 
@@ -495,7 +501,7 @@ def run(ck):
     ]
     ck.assumptions += [
         'the model of the format classes is hand-written; its tie to /repo is the exhaustive correspondence run below (all formats with nbits <= %d)' % (8 if thorough else 6),
-        'the extended-float encode / query theorems are bounded (nbits <= 8, |eoffset| <= 3); decode, fixed-point, exponential and ordinal theorems are unbounded',
+        'the extended-float encode / representable_in / normalize / min-max theorems are bounded (nbits <= 8 resp. 6, |eoffset| <= 3); decode, IEEE-vs-Flocq, fixed-point, exponential and all ordinal theorems are unbounded',
         'the four recorded defects are modelled as coded (variant selected by probing the implementation) and proved absent from the patched variant',
     ]
     ok, _ = ck.build_static(['Props/C16.v', 'Cases/C16Cases.v'])
@@ -564,7 +570,10 @@ def run(ck):
                 for x in cands[::19] + cands[-4:]:
                     add(f'(OValue1 {f.term} {fl_val(x)}, {value_ops(f, x)})', f, 'value')
             if dec:
-                nprop += direct_property(ck, f, dec, cands, report)
+                try:
+                    nprop += direct_property(ck, f, dec, cands, report)
+                except Exception as e:  # noqa
+                    report('evaluating the property on the implementation raised', f, {'error': repr(e)}, None)
         else:
             # wide IEEE formats: random and boundary patterns, item by item
             pats = [0, 1, (1 << f.nbits) - 1, 1 << (f.nbits - 1), (1 << (f.nbits - 1)) - 1]
